@@ -42,3 +42,4 @@ Fixpoint forall2b {A B} (f : A -> B -> bool) (l : list A) (m : list B) : bool :=
   end.
 
 Definition ten : Qc := QcZ 10.
+Definition p10 (n : Z) : Qc := Qcpowz ten n.
